@@ -117,7 +117,43 @@ func e4Payload(idx, extra int) []byte {
 	return b
 }
 
+// ---- observation hook (reconnclient.go, build tag verif): per RetryClient counters
+
+var vHookMu sync.Mutex
+var vHookCounters = map[interface{}]*int64{}
+
+func init() {
+	verifHook = func(site string, owner interface{}) {
+		if site != "reconnect:tasks-pushed" {
+			return
+		}
+		vHookMu.Lock()
+		p := vHookCounters[owner]
+		vHookMu.Unlock()
+		if p != nil {
+			atomic.AddInt64(p, 1)
+		}
+	}
+}
+
+func vHookRegister(owner interface{}) *int64 {
+	p := new(int64)
+	vHookMu.Lock()
+	vHookCounters[owner] = p
+	vHookMu.Unlock()
+	return p
+}
+
+func vHookUnregister(owner interface{}) {
+	vHookMu.Lock()
+	delete(vHookCounters, owner)
+	vHookMu.Unlock()
+}
+
 type e4Env struct {
+	pushed *int64 // reconnect loop passed "tasks pushed" this many times
+	active int64  // ConnState(Active) callbacks
+	ctx    context.Context
 	c      e4Case
 	log    *vLog
 	b      *vbroker
@@ -149,6 +185,37 @@ func (e *e4Env) activity() int64 {
 	return e.log.lastSeq() + int64(e.d.dialCount()) + int64(st.TotalTasks) + int64(st.TotalRetries) + int64(st.CountConnect)
 }
 
+// idleBarrier decides, race-free, whether the client is idle on a live connection:
+// the reconnect loop has pushed its Resubscribe/Retry tasks for every successful connect
+// (hook counter == number of Active callbacks), a sentinel task pushed afterwards has run
+// (tasks are FIFO on one goroutine), nothing changed meanwhile and the goal still holds.
+func (e *e4Env) idleBarrier(goal func() bool) bool {
+	bc := e.d.currentConn()
+	if bc == nil {
+		return false
+	}
+	a0, p0 := atomic.LoadInt64(&e.active), atomic.LoadInt64(e.pushed)
+	if a0 != p0 || a0 == 0 || !goal() {
+		return false
+	}
+	ch := make(chan struct{})
+	if err := e.rc.pushTask(e.ctx, func(context.Context, *BaseClient) { close(ch) }); err != nil {
+		return false
+	}
+	select {
+	case <-ch:
+	case <-time.After(2 * time.Second):
+		return false
+	}
+	if atomic.LoadInt64(&e.active) != a0 || atomic.LoadInt64(e.pushed) != p0 {
+		return false
+	}
+	if cur := e.d.currentConn(); cur != bc {
+		return false
+	}
+	return goal()
+}
+
 // settle waits until the client is idle: nothing queued and every accepted QoS>=1 /
 // subscribe / unsubscribe request acknowledged. Returns (done, stuck).
 func (e *e4Env) settle(maxWait time.Duration, needAcks bool) (bool, bool) {
@@ -177,12 +244,8 @@ func (e *e4Env) settle(maxWait time.Duration, needAcks bool) (bool, bool) {
 	deadline := time.Now().Add(maxWait)
 	lastAct, lastChange := e.activity(), time.Now()
 	for i := 0; ; i++ {
-		if goal() {
-			// goal must be stable: the task that makes the queue empty may still be running
-			time.Sleep(200 * time.Microsecond)
-			if goal() {
-				return true, false
-			}
+		if e.idleBarrier(goal) {
+			return true, false
 		}
 		if a := e.activity(); a != lastAct {
 			lastAct, lastChange = a, time.Now()
@@ -216,6 +279,13 @@ func e4Run(c e4Case) (res *e4Result) {
 		e.mu.Unlock()
 	}
 	e.rc = rc
+	e.pushed = vHookRegister(rc)
+	defer vHookUnregister(rc)
+	d.onState = func(conn int, st ConnState, err error) {
+		if st == StateActive {
+			atomic.AddInt64(&e.active, 1)
+		}
+	}
 	base, max := time.Duration(c.Cfg.BaseUs)*time.Microsecond, time.Duration(c.Cfg.MaxUs)*time.Microsecond
 	if base == 0 {
 		base = 500 * time.Microsecond
@@ -241,6 +311,7 @@ func e4Run(c e4Case) (res *e4Result) {
 	e.cli = cli
 	ctx, cancel := context.WithCancel(context.Background())
 	defer cancel()
+	e.ctx = ctx
 
 	connected := false
 	disconnected := false
